@@ -262,6 +262,10 @@ def generate(template_path: str, snapshot: str) -> Generated:
         if s.startswith("//@ unit"):
             i += 1
             continue
+        if s.startswith("//@ include"):
+            inc = open(os.path.join(os.path.dirname(template_path), s.split()[2])).read().split("\n")
+            tl[i:i + 1] = inc
+            continue
         if s.startswith("//@ canary"):
             canary_extra += " " + s[len("//@ canary"):].strip()
             i += 1
